@@ -29,6 +29,9 @@ SPECIAL = [
     ("comments_all_styles", "-- head\n# mysql\n/* block */\nCREATE TABLE a ( -- t1\n id int, /* c */\n x int /* open\n*/\n); -- tail\n", {}),
     ("indented_block_opener", "CREATE TABLE a (\n   /* indented opener\n   body\n   */\n id int);\n", {}),
     ("unclosed_block", "CREATE TABLE a (id int); /* never closed\nCREATE TABLE b (id int);\n", {}),
+    ("unclosed_block_at_line_start", "CREATE TABLE a (id int);\n/* never closed\nCREATE TABLE b (id int);\n", {}),
+    ("ends_inside_block", "CREATE TABLE a (id int); -- c\n/*\n still open", {}),
+    ("trailing_set_no_newline", "CREATE TABLE a (id int);\nSET x = 1;\nSET y = 2;", {}),
     ("trailing_set", "CREATE TABLE a (id int);\nSET x = 1;", {}),
     ("set_then_table", "SET y = 2;\nCREATE TABLE a (id int);\n", {}),
     ("pending_unbalanced", "CREATE TABLE a (id int,\n", {}),
@@ -245,7 +248,7 @@ def run(tier, seed):
                 "exhaustive": True})
     C.write_evidence(PID, tier, seed, cov, time.time() - t0, len(V.viol),
                      ["fresh-object oracle computed in a throw-away process", "inputs: regression corpus harvested from the "
-                      "working tree + 12 state-leaving scripts", "TLC, PLY, CPython trusted"])
+                      "working tree + 15 state-leaving scripts", "TLC, PLY, CPython trusted"])
     return rc
 
 
